@@ -28,8 +28,21 @@ def steps_of(recs):
     for r in recs:
         if r.t == 'S' and r.kind == 'step':
             enc = [(int(x.split(':')[0]), int(x.split(':')[1])) for x in r.kv.get('enc', '').split(',') if x]
-            out.append(dict(pid=int(r.kv['pid']), tc=int(r.kv['tc']), enc=enc, tr=r.kv.get('tr', '')))
+            ent = dict((int(x.split(':')[0]), x.split(':', 1)[1]) for x in r.kv.get('ent', '').split(',') if ':' in x)
+            out.append(dict(pid=int(r.kv['pid']), tc=int(r.kv['tc']), enc=enc, ent=ent, tr=r.kv.get('tr', '')))
     return out
+
+
+def family(kind):
+    """CONDVAR_WAIT -> CONDVAR, MUTEX_ASYNC_LOCK -> MUTEX, CommWait -> COMM, ActorJoin -> ACTOR ..."""
+    if not kind or kind == '-':
+        return None
+    if '_' in kind:
+        return kind.split('_')[0]
+    for p in ('Comm', 'Actor', 'Mess', 'Random', 'Activity'):
+        if kind.startswith(p):
+            return p.upper()
+    return kind
 
 
 def after_path(recs):
@@ -122,6 +135,16 @@ class C39(S4UCheck):
             k = cands[sw['at'] % len(cands)]
             st = steps[k]
             others = [(p, m) for p, m in st['enc'] if p != st['pid']]
+            # two swaps out of three go to pairs whose pending transitions are of one family (two waits on conditions, two
+            # mutex requests, two communications...): the pairs on which a wrong "independent" verdict is most likely
+            if sw['at'] % 3 != 0:
+                fam = [(kk, p, m) for kk in cands for p, m in steps[kk]['enc']
+                       if p != steps[kk]['pid'] and family(steps[kk]['ent'].get(p)) == family(steps[kk]['ent'].get(steps[kk]['pid']))
+                       and family(steps[kk]['ent'].get(p)) is not None]
+                if fam:
+                    k, bp0, bm0 = fam[sw['other'] % len(fam)]
+                    st = steps[k]
+                    others = [(bp0, bm0)]
             bp, bm = others[sw['other'] % len(others)]
             btc = sw['tc'] % bm
             if (k, bp, btc) in done:
